@@ -560,6 +560,206 @@ class _Run:
                 self.emit(s, name, ["final"])
 
 
+class _WidgetRun:
+    """Signals as the bundled widgets emit them (Widget._emit: the widget itself is the first emitted argument).
+
+    The emission contract is the documented one: CheckBox / RadioButton emit 'change' (widget, new_state) before and
+    'postchange' (widget, old_state) after every real state change made with do_callback true - set_state, the state
+    property, toggle_state, the activate keys, a button-1 press - and nothing when the state stays or do_callback is
+    false; a RadioButton that becomes True clears the other true buttons of its group, each of which reports its own
+    change; Button emits 'click' (button) for an activate key and a button-1 press; the bundled list walkers emit
+    'modified' () once per list operation.  Every emission must reach the handlers connected to that widget and name,
+    once each, in connection order, user arguments first."""
+
+    def __init__(self, scen: dict, res: Result) -> None:
+        import urwid  # noqa: PLC0415
+
+        self.scen, self.res = scen, res
+        self.log = EventLog(keep=bool(os.environ.get("VERIF_KEEP_LOG")))
+        self.calls: list = []
+        self.urwid = urwid
+        group: list = []
+        self.widgets = [
+            urwid.CheckBox("a"),
+            urwid.CheckBox("b", state=True, has_mixed=True),
+            urwid.RadioButton(group, "r0"),
+            urwid.RadioButton(group, "r1"),
+            urwid.RadioButton(group, "r2"),
+            urwid.Button("ok"),
+            urwid.SimpleListWalker([urwid.Text("x")]),
+            urwid.SimpleFocusListWalker([urwid.Text("y")]),
+        ]
+        self.group = [2, 3, 4]
+        self.state = {0: False, 1: True, 2: True, 3: False, 4: False}
+        self.conns: list = []  # [widget index, name, handler id, user args tuple, key, connected]
+
+    NAMES = {0: ("change", "postchange"), 1: ("change", "postchange"), 2: ("change", "postchange"), 3: ("change", "postchange"), 4: ("change", "postchange"), 5: ("click",), 6: ("modified",), 7: ("modified",)}
+
+    def violate(self, clause, sig, msg=""):
+        self.res.violate(P, clause, sig + " [widget signals]", msg)
+        self.log.add("violation", f"{clause} {sig}")
+
+    def handler(self, hid: int):
+        def h(*args):
+            self.calls.append((hid, args))
+
+        h.hid = hid
+        return h
+
+    def expect_state_change(self, wi: int, new, do_callback: bool, out: list) -> None:
+        old = self.state[wi]
+        if old == new:
+            return
+        if do_callback:
+            out.append((wi, "change", (new,)))
+        self.state[wi] = new
+        if do_callback:
+            out.append((wi, "postchange", (old,)))
+        if wi in self.group and new is True:
+            for other in self.group:
+                if other != wi and self.state[other]:
+                    self.expect_state_change(other, False, True, out)
+
+    def toggled(self, wi: int):
+        st = self.state[wi]
+        if wi in self.group:
+            return True
+        if st is False:
+            return True
+        if st is True:
+            return "mixed" if wi == 1 else False
+        return False
+
+    def run(self) -> str:  # noqa: C901, PLR0912, PLR0915
+        urwid = self.urwid
+        handlers = [self.handler(i) for i in range(4)]
+        for i, op in enumerate(self.scen["ops"]):
+            k = op["op"]
+            wi = op.get("w", 0) % len(self.widgets)
+            w = self.widgets[wi]
+            try:
+                if k == "conn":
+                    name = self.NAMES[wi][op.get("n", 0) % len(self.NAMES[wi])]
+                    ua = tuple(op.get("ua", ()))
+                    hid = op.get("h", 0) % len(handlers)
+                    key = urwid.connect_signal(w, name, handlers[hid], user_args=list(ua)) if ua else urwid.connect_signal(w, name, handlers[hid])
+                    self.conns.append([wi, name, hid, ua, key, True])
+                    self.log.add("conn", [wi, name, hid, list(ua)])
+                    continue
+                if k == "disc":
+                    live = [c for c in self.conns if c[5]]
+                    if not live:
+                        continue
+                    c = live[op.get("c", 0) % len(live)]
+                    if op.get("by_key"):
+                        urwid.disconnect_signal_by_key(self.widgets[c[0]], c[1], c[4])
+                        c[5] = False
+                    else:
+                        if c[3]:
+                            urwid.disconnect_signal(self.widgets[c[0]], c[1], handlers[c[2]], user_args=list(c[3]))
+                        else:
+                            urwid.disconnect_signal(self.widgets[c[0]], c[1], handlers[c[2]])
+                        # removes the first connection with these arguments
+                        first = next(x for x in self.conns if x[5] and x[:4] == c[:4])
+                        first[5] = False
+                    self.log.add("disc", [c[0], c[1], c[2], bool(op.get("by_key"))])
+                    continue
+                if k != "act":
+                    continue
+                exp: list = []
+                del self.calls[:]
+                a = op.get("a", 0)
+                if wi <= 4:
+                    how = a % 6
+                    if how == 0:
+                        v = [True, False, "mixed"][op.get("v", 0) % (3 if wi == 1 else 2)]
+                        dc = not op.get("quiet")
+                        w.set_state(v, dc)
+                        self.expect_state_change(wi, v, dc, exp)
+                    elif how == 1 and wi <= 1:
+                        # (the state property is CheckBox's: on a RadioButton it does not go through the group logic,
+                        # which is a matter of the widget, not of its signals - radio buttons are set with set_state)
+                        v = [True, False][op.get("v", 0) % 2]
+                        w.state = v
+                        self.expect_state_change(wi, v, True, exp)
+                    elif how == 1:
+                        v = [True, False][op.get("v", 0) % 2]
+                        w.set_state(v)
+                        self.expect_state_change(wi, v, True, exp)
+                    elif how == 2:
+                        nv = self.toggled(wi)
+                        w.toggle_state()
+                        self.expect_state_change(wi, nv, True, exp)
+                    elif how == 3:
+                        key = [" ", "enter", "x"][op.get("v", 0) % 3]
+                        nv = self.toggled(wi)
+                        rv = w.keypress((12,), key)
+                        if key != "x":
+                            self.expect_state_change(wi, nv, True, exp)
+                        elif rv != "x":
+                            self.violate("C14.1", "unbound-key-not-returned", f"step {i}")
+                    elif how == 4:
+                        nv = self.toggled(wi)
+                        w.mouse_event((12,), "mouse press", 1, 1, 0, True)
+                        self.expect_state_change(wi, nv, True, exp)
+                    else:
+                        w.mouse_event((12,), "mouse press", 3, 1, 0, True)  # another button: nothing happens
+                    if w.state != self.state[wi]:
+                        self.violate("C14.1", "widget-state-differs-from-documented-state", f"step {i}: widget {wi} state {w.state!r} expected {self.state[wi]!r}")
+                        break
+                elif wi == 5:
+                    how = a % 4
+                    if how == 0:
+                        w.keypress((12,), "enter")
+                        exp.append((5, "click", ()))
+                    elif how == 1:
+                        w.mouse_event((12,), "mouse press", 1, 2, 0, True)
+                        exp.append((5, "click", ()))
+                    elif how == 2:
+                        w.keypress((12,), "x")
+                    else:
+                        w.mouse_event((12,), "mouse release", 0, 2, 0, True)
+                else:
+                    how = a % 4
+                    if how == 0:
+                        w.append(urwid.Text("n"))
+                    elif how == 1:
+                        w.insert(0, urwid.Text("i"))
+                    elif how == 2 and len(w) > 1:
+                        del w[0]
+                    else:
+                        w[0] = urwid.Text("r")
+                    exp.append((wi, "modified", ()))
+                self.log.add("act", [wi, a, op.get("v", 0), bool(op.get("quiet"))])
+            except Exception as e:  # noqa: BLE001
+                if core.raised_in_harness(e):
+                    raise core.HarnessError(f"harness exception in widget-signal op {op}: {core.format_exc(e)}") from e
+                self.violate("C14.1", f"widget-signal-op-raised:{core.exc_signature(e)}", f"step {i} {op}: {core.format_exc(e)}")
+                break
+            want = []
+            for ewi, name, args in exp:
+                for c in self.conns:
+                    if c[5] and c[0] == ewi and c[1] == name:
+                        # (the list walkers are not widgets: they emit 'modified' without themselves as an argument)
+                        want.append((c[2], (*c[3], *args) if ewi >= 6 else (*c[3], self.widgets[ewi], *args)))
+            got = list(self.calls)
+            self.log.add("calls", [[h, len(a_)] for h, a_ in got])
+            if exp:
+                self.res.probe("widget_emission_checked")
+            if len(want) >= 2:
+                self.res.probe("widget_emission_reached_2plus_handlers")
+                self.res.nontrivial = True
+            if len(exp) >= 4:
+                self.res.probe("radio_group_cascade")
+            if got != want:
+                def show(lst):
+                    return [(h, tuple("<w>" if hasattr(x, "render") or hasattr(x, "get_focus") else x for x in a_)) for h, a_ in lst]
+
+                self.violate("C14.1" if len(got) != len(want) else "C14.4", "widget-emission-differs-from-documented-contract", f"step {i} {op}: handlers called {show(got)}, expected {show(want)} (emissions {[(a_, b_, c_) for a_, b_, c_ in exp]})")
+                break
+        return self.log.digest()
+
+
 class SignalsEngine(Engine):
     prop = P
     name = "signals"
@@ -570,7 +770,10 @@ class SignalsEngine(Engine):
         "2-3 signal names and 2-6 scripted handlers; scripted handler behaviours put list edits, recursive "
         "emits, last-reference drops and collector passes INSIDE emits. A run is non-trivial when some emit "
         "that started with >=2 connected handlers saw a re-entrant edit, weak death or nested emit; "
-        "distinct = distinct event-log digests among those."
+        "distinct = distinct event-log digests among those. One history in ten instead drives the bundled emitters "
+        "(CheckBox, RadioButton group, Button, the two list walkers) through their public mutators, keys and mouse presses "
+        "with plain handlers connected / disconnected in between, and compares every handler call with the documented "
+        "emission contract (change before / postchange after a real state change, click, modified; the widget first)."
     )
     assumptions = [
         "gc is disabled for the run; cyclic garbage is only collected by scheduled gc.collect() operations",
@@ -579,7 +782,7 @@ class SignalsEngine(Engine):
     ]
     components = {
         "real": ["urwid.signals (Signals, MetaSignals, connect/disconnect/emit)"],
-        "stub": ["handlers, senders and weak arguments are harness objects"],
+        "stub": ["handlers, senders and weak arguments are harness objects (the widget histories use real CheckBox / RadioButton / Button / list walkers as senders)"],
         "driven": ["garbage-collection timing", "re-entrant calls from handlers"],
     }
     required_probes = (
@@ -595,10 +798,23 @@ class SignalsEngine(Engine):
         "recursive_emit",
         "connect_unregistered_rejected",
         "disconnect_of_not_connected",
+        "widget_emission_checked",
+        "radio_group_cascade",
     )
     reducible = ("ops", "behaviours")
 
     def generate(self, rng: random.Random, tier: str) -> dict:
+        if rng.random() < 0.1:
+            ops = []
+            for _ in range(rng.randint(2, 20)):
+                r = rng.random()
+                if r < 0.35:
+                    ops.append({"op": "conn", "w": rng.randrange(8), "n": rng.randrange(2), "h": rng.randrange(4), "ua": rng.choice([[], [], ["u"], ["u", 7]])})
+                elif r < 0.45:
+                    ops.append({"op": "disc", "c": rng.randrange(6), "by_key": rng.random() < 0.5})
+                else:
+                    ops.append({"op": "act", "w": rng.randrange(8), "a": rng.randrange(12), "v": rng.randrange(6), "quiet": rng.random() < 0.15})
+            return {"mode": "widgets", "config": {}, "ops": ops, "behaviours": []}
         n_s = rng.randint(1, 3)
         n_h = rng.randint(2, 6)
         n_w = rng.randint(0, 3)
@@ -670,6 +886,12 @@ class SignalsEngine(Engine):
 
     def execute(self, scen: dict) -> Result:
         res = Result()
+        if scen.get("mode") == "widgets":
+            wr = _WidgetRun(scen, res)
+            res.digest = wr.run()
+            if wr.log.keep:
+                res.info["log"] = wr.log.lines
+            return res
         core.gc_freeze_once()
         gc.collect()
         gc.disable()
@@ -689,6 +911,8 @@ class SignalsEngine(Engine):
 
     def simplify(self, scen: dict):
         cfg = scen["config"]
+        if scen.get("mode") == "widgets":
+            return
         # plain return values
         if any(cfg["rets"]):
             c = dict(scen)
